@@ -155,6 +155,36 @@ def manual_protocol_inside_try(fn, asg, var, par):
         for x in ast.walk(s_):
             if isinstance(x, ast.Return):
                 return False, 'manual protocol: `return` inside the try body skips success()'
+    # one release per enter: the holder must not be overwritten by a second enter() while it may already hold an entered manager
+    # (`m = m or X.enter()` keeps the first one and is fine)
+    from ..cfg import CFG, solve, subnodes
+    cfg = CFG(fn)
+
+    def enters(node):
+        out = []
+        for x in subnodes(cfg, node):
+            if isinstance(x, ast.Assign) and len(x.targets) == 1 and norm(x.targets[0]) == var:
+                v = x.value
+                if isinstance(v, ast.Call) and call_name(v) == 'enter':
+                    out.append('plain')
+                elif isinstance(v, ast.BoolOp) and isinstance(v.op, ast.Or) and norm(v.values[0]) == var:
+                    out.append('guarded')
+                elif isinstance(v, ast.Constant) and v.value is None:
+                    out.append('none')
+                else:
+                    out.append('other')
+        return out
+
+    def transfer(node, st):
+        for k in enters(node):
+            st = 'N' if k == 'none' else 'H'
+        return st
+
+    ins = solve(cfg, 'N', transfer, lambda a_, b_: 'H' if 'H' in (a_, b_) else 'N')
+    for node in cfg.nodes:
+        if 'plain' in enters(node) and ins.get(node.id) == 'H':
+            return False, (f'manual protocol: `{var} = ....enter()` at line {node.lineno} overwrites a manager that may already be entered '
+                           f'(two enters, one release: the registry count never returns to zero)')
     return True, ''
 
 
